@@ -31,7 +31,8 @@ RULE = ("fn: signature of 0-5 parameters (each with/without default; defaults of
         "unknown names, reserved names, shared `context`, non-contiguous `$i`, missing parent keys); all call shapes for "
         "signatures <= 3 parameters are enumerated. e2e: random programs of 1-3 callee flows (echo parameters, same-named "
         "locals, globals, nested calls, return expressions) called from main by await/start/activate. probe: waiting "
-        "siblings/callees resumed by events, in-place mutation of passed containers. non-trivial = at least one parameter "
+        "siblings/callees resumed by events, in-place mutation of passed containers, return-value capture (await / start + match "
+        "$r.Finished() / match f(..).Finished()) inside bodies duplicated by the `when` expansion (or-groups, cases, else, nested). non-trivial = at least one parameter "
         "bound from an argument or default (fn) / at least one call with arguments or a return value (e2e, probe); "
         "distinct = distinct case JSON.")
 TRUSTED_BASE = [
@@ -436,6 +437,102 @@ def g_probe(rng):
     return {"kind": "probe", "tmpl": t, "src": src, "events": events, "expect": expect}
 
 
+# --- probes: return-value capture inside bodies that the `when` expansion duplicates (one copy per group of an
+#     or-group, the else body once per case).  Found by the C12 builder (fixed in /repo 0e3efac): `$x = match $r.Finished()`
+#     lost its assignment in every copy but the first.  Oracle: the returned value reaches the caller's variable.
+
+WHEN_SHAPES = ["plain", "or2", "or2", "or3and", "and", "cases", "cases-or", "else", "else2", "nested", "nested-cases"]
+CAPTURE_FORMS = ["await", "start-match", "start-match", "ctor-match"]
+
+
+def g_when_probe(rng):
+    shape = rng.choice(WHEN_SHAPES)
+    va, vb, vd = rng.sample(SCALARS_DISTINCT[1:], 3)
+    if rng.random() < 0.4:
+        va = [va, rng.choice([1, "z", None])]
+    ret_kind = rng.choice(["ab", "a", "b1", "lit"])
+    ret_src = {"ab": "[$a, $b]", "a": "$a", "b1": "[$b]", "lit": render_val(vd)}[ret_kind]
+
+    def ret_val(a, b):
+        return {"ab": [a, b], "a": a, "b1": [b], "lit": vd}[ret_kind]
+
+    helper = f"flow helper $a $b={render_val(vd)}\n  match Go()\n  return {ret_src}\n\nflow quick $a $b={render_val(vd)}\n  return {ret_src}\n\nflow failing\n  abort\n\n"
+    forms = []
+
+    def capture(ind, var, tag, allow_wait):
+        """lines of one capture + the Result event, its expectation, whether a Go event is needed"""
+        form = rng.choice(CAPTURE_FORMS if allow_wait else ["await"])
+        pad = "  " * ind
+        give_b = rng.random() < 0.5
+        b = vb if give_b else vd
+        go = True
+        if form == "await":
+            flow = rng.choice(["helper", "quick"]) if allow_wait else "quick"
+            args = render_val(va) + (f", b={render_val(vb)}" if give_b else "")
+            lines = [f"{pad}${var} = await {flow}({args})"]
+            go = flow == "helper"
+        elif form == "start-match":
+            args = render_val(va) + (f", b={render_val(vb)}" if give_b else "")
+            lines = [f"{pad}start helper({args}) as $r{var}", f"{pad}${var} = match $r{var}.Finished()"]
+        else:
+            args = f"a={render_val(va)}" + (f", b={render_val(vb)}" if give_b else "")
+            lines = [f"{pad}start helper({args})", f"{pad}${var} = match helper({args}).Finished()"]
+        lines.append(f"{pad}send Result(v=${var}, t={json.dumps(tag)})")
+        forms.append(form)
+        return lines, ["Result", {"v": ret_val(va, b), "t": tag}], go
+
+    def body(ind, tag):
+        """one or two captures; at most one of them waits for the single Go event (and then it is the last)"""
+        lines, exps, go = [], [], False
+        if rng.random() < 0.3:
+            l, e, _ = capture(ind, "y", tag + "-first", False)
+            lines += l
+            exps.append(e)
+        l, e, go = capture(ind, "x", tag, True)
+        return lines + l, exps + [e], go
+
+    main = ["flow main"]
+    events = []
+    if shape == "plain":
+        l, expect, go = body(1, "p")
+        main += l
+    elif shape in ("or2", "or3and", "and"):
+        head = {"or2": "when Ev1() or Ev2()", "or3and": "when Ev1() or Ev2() or (Ev3() and Ev4())", "and": "when Ev1() and Ev2()"}[shape]
+        l, expect, go = body(2, shape)
+        main += ["  " + head] + l
+        events = {"or2": rng.choice([["Ev1"], ["Ev2"]]), "or3and": rng.choice([["Ev1"], ["Ev2"], ["Ev4", "Ev3"]]), "and": ["Ev2", "Ev1"]}[shape]
+    elif shape in ("cases", "cases-or"):
+        heads = ["when Ev1()", "or when Ev2()"] if shape == "cases" else ["when Ev1() or Ev2()", "or when Ev3() or Ev4()"]
+        trig = rng.choice([0, 1])
+        parts = [body(2, f"c{ci}") for ci in range(2)]
+        for h, (l, _, _) in zip(heads, parts):
+            main += ["  " + h] + l
+        expect, go = parts[trig][1], parts[trig][2]
+        if shape == "cases":
+            events = [["Ev1"], ["Ev2"]][trig]
+        else:
+            events = [rng.choice(["Ev1", "Ev2"]) if trig == 0 else rng.choice(["Ev3", "Ev4"])]
+    elif shape in ("else", "else2"):
+        main += ["  when failing", "    send Nope()"]
+        if shape == "else2":
+            main += ["  or when failing", "    send Nope2()"]
+        l, expect, go = body(2, shape)
+        main += ["  else"] + l
+    elif shape == "nested":
+        l, expect, go = body(3, "n")
+        main += ["  when Ev1() or Ev2()", "    when Ev3() or Ev4()"] + l
+        events = [rng.choice(["Ev1", "Ev2"]), rng.choice(["Ev3", "Ev4"])]
+    else:  # nested-cases: an or-group whose body holds a two-case when
+        parts = [body(3, f"n{ci}") for ci in range(2)]
+        trig = rng.choice([0, 1])
+        main += ["  when Ev1() or Ev2()", "    when Ev3()"] + parts[0][0] + ["    or when Ev4()"] + parts[1][0]
+        events = [rng.choice(["Ev1", "Ev2"]), ["Ev3", "Ev4"][trig]]
+        expect, go = parts[trig][1], parts[trig][2]
+    main.append("  match Never()")
+    evs = [{"type": t} for t in events] + ([{"type": "Go"}] if go else [])
+    return {"kind": "probe", "tmpl": "when-" + shape + ":" + "+".join(sorted(set(forms))), "src": helper + "\n".join(main) + "\n", "events": evs, "expect": expect}
+
+
 def gen_cases(rng, tier):
     n_fn, n_e2e, n_probe = (5000, 300, 60) if tier == "quick" else (200000, 10000, 1000)
     cases = enum_fn_shapes(3)
@@ -443,6 +540,7 @@ def gen_cases(rng, tier):
     modes = [None] * 12 + ["clash", "clash", "surplus", "unknown-named", "dup-named", "reserved"]
     cases += [g_prog(rng, rng.choice(modes)) for _ in range(n_e2e)]
     cases += [g_probe(rng) for _ in range(n_probe)]
+    cases += [g_when_probe(rng) for _ in range(2 * n_probe)]
     return cases
 
 
